@@ -59,7 +59,7 @@ theorem admin_can_set_period (s : State) (a : String) (t p : Nat) (hadm : IsAdmi
   unfold setPeriod setPeriodPlan
   simp [bind, h2, h1, hadm', hp, check, isOk]
 
-theorem admin_can_add_admin (s : State) (a : String) (t : Nat) (n na : String) (hadm : IsAdminOf s t a)
+theorem admin_can_add_admin (s : State) (a : String) (t : Nat) (n : String) (na : Acct) (hadm : IsAdminOf s t a)
     (hn : decodeAcc n = some na) (hnew : ∀ tn, findTenant s.st.tenants t = some tn → na ∉ tn.admins) :
     isOk (addAdmin s a t n).out = true := by
   obtain ⟨tn, acc, h1, h2, h3⟩ := hadm
@@ -68,7 +68,7 @@ theorem admin_can_add_admin (s : State) (a : String) (t : Nat) (n na : String) (
   unfold addAdmin addAdminPlan
   simp [bind, h2, h1, hn, hadm', check, isOk, this]
 
-theorem admin_can_remove_admin (s : State) (a : String) (t : Nat) (n ta : String) (hadm : IsAdminOf s t a)
+theorem admin_can_remove_admin (s : State) (a : String) (t : Nat) (n : String) (ta : Acct) (hadm : IsAdminOf s t a)
     (hn : decodeAcc n = some ta) (hin : ∀ tn, findTenant s.st.tenants t = some tn → ta ∈ tn.admins ∧ tn.admins.length ≠ 1) :
     isOk (removeAdmin s a t n).out = true := by
   obtain ⟨tn, acc, h1, h2, h3⟩ := hadm
@@ -187,7 +187,7 @@ theorem admins_ok_always (H : Str → Str) (pr : Nat) (c : Bool) (ops : List Op)
   simp [initState] at hm
 
 /-- a removed admin is locked out: after a successful removal the account is no longer in the list -/
-theorem removed_admin_locked_out (s : State) (a : String) (t : Nat) (n ta : String) (hn : decodeAcc n = some ta) (hok : AdminsOk s)
+theorem removed_admin_locked_out (s : State) (a : String) (t : Nat) (n : String) (ta : Acct) (hn : decodeAcc n = some ta) (hok : AdminsOk s)
     (h : isOk (removeAdmin s a t n).out = true) : ¬ IsAdminOf (removeAdmin s a t n).st t n := by
   unfold removeAdmin at h ⊢
   split at h
